@@ -28,11 +28,42 @@ TOP = frozenset({0, 1, 2})
 REPLY_TYPE = {"config": "config", "upload_edb": "upload_edb", "token": "result"}  # request type -> reply type
 
 
+def _flag_kind(v):
+    """What a value assigned to a local tells about later `is None` / truth tests on it: 'N' None, 'T' a truthy object,
+    'F' a falsy non-None constant, None = unknown."""
+    if isinstance(v, ast.Constant):
+        if v.value is None:
+            return "N"
+        if isinstance(v.value, (bool, int, float, str, bytes)):
+            return "T" if v.value else "F"
+        return None
+    if isinstance(v, ast.JoinedStr):
+        return "T" if any(isinstance(p, ast.Constant) and p.value for p in v.values) else None
+    if isinstance(v, (ast.Dict, ast.List, ast.Tuple, ast.Set)):
+        n = len(v.keys) if isinstance(v, ast.Dict) else len(v.elts)
+        if isinstance(v, ast.Dict) and any(k is None for k in v.keys):
+            return None
+        if not isinstance(v, ast.Dict) and any(isinstance(e, ast.Starred) for e in v.elts):
+            return None
+        return "T" if n else "F"
+    return None
+
+
+def states_of(st):
+    return frozenset(w[0] for w in st[0])
+
+
 class StateDomain:
-    """Abstract state: (possible states, valid alias names)."""
+    """Abstract state: (worlds, valid alias names).  A world is (service state, {(local, kind)}) - the relation between the
+    possible service states and what is known about locals used as flags (`reason = None ... if reason is not None`), so
+    that a refusal decided in one `if` and carried out in a later one is understood.  Join = union of worlds."""
 
     def __init__(self, repo, fi, scanner):
         self.repo, self.fi, self.scanner = repo, fi, scanner
+
+    @staticmethod
+    def initial():
+        return (frozenset((s, frozenset()) for s in TOP), frozenset())
 
     def join(self, a, b):
         return (a[0] | b[0], a[1] & b[1])
@@ -49,8 +80,26 @@ class StateDomain:
             return True
         return isinstance(expr, ast.Name) and expr.id in st[1]
 
+    def _flag_test(self, name, test, truth, st):
+        """test: 'none' (x is None) | 'truth' (bool(x)).  Keeps the worlds compatible with the outcome."""
+        worlds, aliases = st
+        keep = set()
+        for (s, flags) in worlds:
+            kind = dict(flags).get(name)
+            if kind is None:
+                keep.add((s, flags))
+                continue
+            if test == "none":
+                holds = kind == "N"
+            else:
+                holds = kind == "T"
+            if holds == truth:
+                keep.add((s, flags))
+        return (frozenset(keep), aliases) if keep else None
+
     def atom(self, expr, truth, st):
-        states, aliases = st
+        if isinstance(expr, ast.Name) and not self.is_read(expr, st):
+            return self._flag_test(expr.id, "truth", truth, st)
         if isinstance(expr, ast.Compare):
             # split chains into a conjunction
             operands = [expr.left] + list(expr.comparators)
@@ -67,12 +116,17 @@ class StateDomain:
         return st
 
     def _cmp(self, l, op, r, truth, st):
-        states, aliases = st
+        worlds, aliases = st
         flip = {ast.Lt: ast.Gt, ast.Gt: ast.Lt, ast.LtE: ast.GtE, ast.GtE: ast.LtE}
         if self.is_read(r, st) and not self.is_read(l, st):
             l, r = r, l
             op = flip.get(type(op), type(op))()
         if not self.is_read(l, st):
+            # a local flag compared with None
+            if isinstance(l, ast.Constant) and l.value is None:
+                l, r = r, l
+            if isinstance(l, ast.Name) and isinstance(r, ast.Constant) and r.value is None and isinstance(op, (ast.Is, ast.IsNot, ast.Eq, ast.NotEq)):
+                return self._flag_test(l.id, "none", truth == isinstance(op, (ast.Is, ast.Eq)), st)
             return st
         c = self.const(r)
         if c is None:
@@ -83,40 +137,43 @@ class StateDomain:
                 cs = set(c)
             except TypeError:
                 return st
-            sel = {s for s in states if (s in cs)}
-            if t is ast.NotIn:
-                sel = states - sel
+            pred = (lambda s: s in cs) if t is ast.In else (lambda s: s not in cs)
         elif t in (ast.Eq, ast.Is):
-            sel = {s for s in states if s == c}
+            pred = lambda s: s == c
         elif t in (ast.NotEq, ast.IsNot):
-            sel = {s for s in states if s != c}
+            pred = lambda s: s != c
         elif t is ast.Lt:
-            sel = {s for s in states if s < c}
+            pred = lambda s: s < c
         elif t is ast.LtE:
-            sel = {s for s in states if s <= c}
+            pred = lambda s: s <= c
         elif t is ast.Gt:
-            sel = {s for s in states if s > c}
+            pred = lambda s: s > c
         elif t is ast.GtE:
-            sel = {s for s in states if s >= c}
+            pred = lambda s: s >= c
         else:
             return st
-        res = frozenset(sel) if truth else states - frozenset(sel)
+        try:
+            res = frozenset(w for w in worlds if bool(pred(w[0])) == truth)
+        except TypeError:
+            return st
         if not res:
             return None
-        return (frozenset(res), aliases)
+        return (res, aliases)
 
     def apply_effects(self, node, st, record=None):
-        states, aliases = st
+        worlds, aliases = st
         effs = self.scanner.node_effects(self.fi, node)
         for e in effs:
             if record is not None:
-                record.append((node, e, (states, aliases)))
+                record.append((node, e, (frozenset(w[0] for w in worlds), aliases)))
             if e.kind == "item_store" and e.info.get("base") == "service_meta" and e.info.get("key") == "state":
                 c = e.info.get("const")
-                states = frozenset({c}) if isinstance(c, int) and c in TOP else TOP
+                new = frozenset({c}) if isinstance(c, int) and c in TOP else TOP
+                worlds = frozenset((s, flags) for (_s, flags) in worlds for s in new)
                 aliases = frozenset()
             elif e.kind == "attr_store" and e.name == "service_meta":
-                states, aliases = TOP, frozenset()
+                worlds = frozenset((s, flags) for (_s, flags) in worlds for s in TOP)
+                aliases = frozenset()
         s = node.stmt
         if node.kind == "stmt" and isinstance(s, ast.Assign) and len(s.targets) == 1 and isinstance(s.targets[0], ast.Name):
             nm = s.targets[0].id
@@ -124,14 +181,29 @@ class StateDomain:
                 aliases = aliases | {nm}
             else:
                 aliases = aliases - {nm}
-        return (states, aliases)
+            kind = _flag_kind(s.value)
+            worlds = frozenset((st_, frozenset({(k, v) for (k, v) in flags if k != nm} | ({(nm, kind)} if kind else set())))
+                               for (st_, flags) in worlds)
+        elif node.kind in ("stmt", "for", "with") and s is not None and not isinstance(s, (ast.Expr, ast.Return, ast.Raise, ast.Pass)):
+            # any other binding construct: forget the flags it may rebind
+            bound = set()
+            roots = [s] if node.kind == "stmt" else [getattr(s, "target", None)] + [it.optional_vars for it in getattr(s, "items", [])]
+            for r_ in roots:
+                if r_ is None:
+                    continue
+                for x in ast.walk(r_):
+                    if isinstance(x, ast.Name) and isinstance(x.ctx, (ast.Store, ast.Del)):
+                        bound.add(x.id)
+            if bound:
+                worlds = frozenset((st_, frozenset((k, v) for (k, v) in flags if k not in bound)) for (st_, flags) in worlds)
+        return (worlds, aliases)
 
     def label_refine(self, node, label, st):
         # match statement on the state
         if isinstance(label, tuple) and label and label[0] == "case" and hasattr(ast, "Match") and isinstance(node.stmt, ast.Match):
             if not self.is_read(node.stmt.subject, st):
                 return st
-            states, aliases = st
+            worlds, aliases = st
             idx = label[1]
             cases = node.stmt.cases
             consts = []
@@ -145,10 +217,10 @@ class StateDomain:
                 for v in consts[:upto]:
                     if v:
                         excl |= v
-                res = states - excl
+                res = frozenset(w for w in worlds if w[0] not in excl)
             else:
-                res = states & consts[idx]
-            return (frozenset(res), aliases) if res else None
+                res = frozenset(w for w in worlds if w[0] in consts[idx])
+            return (res, aliases) if res else None
         return st
 
 
@@ -171,7 +243,7 @@ def analyse_handler(repo, fi, scanner):
     """Returns (cfg, records) where records = [(cfgnode, effect, (states, aliases))]."""
     cfg = cfg_of(fi.node)
     dom = StateDomain(repo, fi, scanner)
-    ins, outs = solve(cfg, (TOP, frozenset()), lambda n, s: dom.apply_effects(n, s), dom.join, dom.atom,
+    ins, outs = solve(cfg, dom.initial(), lambda n, s: dom.apply_effects(n, s), dom.join, dom.atom,
                       dom.label_refine)
     records = []
     for nid, st in sorted(ins.items()):
@@ -463,21 +535,27 @@ def _check_loader_and_echo(repo, r3, states):
     init = repo.func(F.SRV, "Service.__init__")
     # (a) state comes from read_service_meta when the service exists, else constant NOT_EXISTS
     got_read, got_default = False, False
-    for st in ast.walk(init.node):
-        if isinstance(st, ast.If) and any(isinstance(c, ast.Call) and (dotted(c.func) or "").endswith("check_sid_folder_exist")
-                                           for c in ast.walk(st.test)):
-            for s in st.body:
-                if isinstance(s, ast.Assign) and dotted(s.targets[0]) == "self.service_meta" and \
-                        isinstance(s.value, ast.Call) and (dotted(s.value.func) or "").endswith("read_service_meta"):
-                    got_read = True
-            for s in st.orelse:
-                if isinstance(s, ast.Assign) and dotted(s.targets[0]) == "self.service_meta" and isinstance(s.value, ast.Dict):
-                    for k, v in zip(s.value.keys, s.value.values):
-                        try:
-                            if repo.const_value(init.module, k) == "state" and repo.const_value(init.module, v) == 0:
-                                got_default = True
-                        except Exception:
-                            pass
+    br = F.predicate_branches(init, "check_sid_folder_exist")
+    held, nheld = (br[0], br[1]) if br is not None else ([], [])
+    for s in held:
+        if isinstance(s, ast.Assign) and dotted(s.targets[0]) == "self.service_meta" and \
+                isinstance(s.value, ast.Call) and (dotted(s.value.func) or "").endswith("read_service_meta"):
+            got_read = True
+    for s in nheld:
+        if isinstance(s, ast.Assign) and dotted(s.targets[0]) == "self.service_meta" and isinstance(s.value, ast.Dict):
+            for k, v in zip(s.value.keys, s.value.values):
+                try:
+                    if repo.const_value(init.module, k) == "state" and repo.const_value(init.module, v) == 0:
+                        got_default = True
+                except Exception:
+                    pass
+    # no other store of the loaded state on either side
+    for side, want in ((held, "read"), (nheld, "default")):
+        for s in side:
+            if isinstance(s, ast.Assign) and dotted(s.targets[0]) == "self.service_meta":
+                is_read = isinstance(s.value, ast.Call) and (dotted(s.value.func) or "").endswith("read_service_meta")
+                if (want == "read") != is_read:
+                    got_read, got_default = (False, got_default) if want == "read" else (got_read, False)
     r3.require(got_read, init, "loader reads persisted state",
                "Service.__init__ no longer takes service_meta from read_service_meta when the service exists")
     r3.require(got_default, init, "loader default state",
@@ -489,17 +567,21 @@ def _check_loader_and_echo(repo, r3, states):
     # (c) init echo
     echo = repo.func(F.SRV, "Service.send_init_echo")
     ok = False
-    for c in ast.walk(echo.node):
-        if isinstance(c, ast.Call):
-            d = dict_literal_of(c)
-            if d is not None:
-                keys = {}
-                for k, v in zip(d.keys, d.values):
-                    if isinstance(k, ast.Constant):
-                        keys[k.value] = v
-                if "state" in keys and F.is_state_read(repo, echo, keys["state"]) and \
-                        isinstance(keys.get("ok"), ast.Constant) and keys["ok"].value is True:
-                    ok = True
+    from ..query import Q, dict_pairs, alternatives
+
+    def state_read_term(t):
+        return t == ("sub", ("attr", ("param", "self"), "service_meta"), ("const", "state")) or \
+            (isinstance(t, tuple) and t and t[0] == "call" and isinstance(t[1], str) and t[1] == F.SRV + "::Service.get_current_service_state" and not t[2])
+    qe = Q(repo, echo)
+    for c, nid, t in qe.calls_to("send_message"):
+        content = qe.arg(c, nid, 1, kw="content")
+        for alt in alternatives(content) if content is not None else []:
+            if alt[0] == "call" and alt[1] in ("pickle.dumps",) and alt[2]:
+                dp = dict_pairs(alt[2][0])
+                if dp is not None and not dp[1]:
+                    pairs = dp[0]
+                    if state_read_term(pairs.get(("const", "state"))) and pairs.get(("const", "ok")) == ("const", True):
+                        ok = True
     r3.require(ok, echo, "init echo reports current state",
                "the init echo does not report {'ok': True, 'state': <current state>}")
     # the echo is sent by the constructor after the state was loaded
